@@ -67,7 +67,7 @@ class VLoop(asyncio.BaseEventLoop):
         self.steps = 0
         # hook called with a new ExecutorJob; default runs it at once
         self.on_executor_job = None
-        self.set_task_factory(self._task_factory)
+        self.set_task_factory(self._vt_task_factory)
         # timers created by the sleep of a BackgroundTask.runner (periodic)
         self._periodic = weakref.WeakSet()
         self.last_batch_fired_oneshot = False
@@ -90,7 +90,7 @@ class VLoop(asyncio.BaseEventLoop):
         # the client installs its own handler in start(); we always capture
         pass
 
-    def _task_factory(self, loop, coro, **kwargs):
+    def _vt_task_factory(self, loop, coro, **kwargs):
         task = tasks.Task(coro, loop=loop, **kwargs)
         self.all_tasks_created.append(task)
         return task
